@@ -124,7 +124,12 @@ def run(ctx):
         cfg = info[n]["cfg"]
         if n not in bad:
             # the translated program reproduces the module exactly on the sampled inputs, and its exact second moment is off
-            ctx.violation(f"TensorProduct/second-moment/{n}", {"broken": f"Cert.TP.C07.{n}.moments_ok", "config": cfg.describe(),
+            # two UNWEIGHTED instructions with the same (i_in1, i_in2, i_out) are deterministic functions of the same inputs: their
+            # contributions are correlated, which the normalisation formula ignores (recorded known finding, whatever the configuration)
+            unw = [(a, b, c) for (a, b, c, _m, w, _pw) in cfg.ins if not w]
+            key = "TensorProduct/second-moment/correlated-unweighted-paths" if len(set(unw)) < len(unw) else f"TensorProduct/second-moment/{n}"
+            ctx.refuted_by_known_finding(f"cert:C07:{n}", key)
+            ctx.violation(key, {"broken": f"Cert.TP.C07.{n}.moments_ok", "config": cfg.describe(),
                           "note": "exact E[out_k²] of the generated program (kernel-computed from its coefficient polynomial) differs from the declared output variance; "
                                   "the configuration itself is the failing input of this property (quantified over configurations)"}, True)
         else:
